@@ -792,7 +792,8 @@ class Event:
                 for key in retval:
                     if not isinstance(key, str):
                         raise TypeError(
-                            f"Event filter {efilter.__name__} returned non-string key {key!r} "
+                            f"Event filter {getattr(efilter, '__name__', efilter)!r} "
+                            + f"returned non-string key {key!r} "
                             + f"(value {retval[key]})")
                 data = retval   # type: ignore[assignment]
             elif not retval:
